@@ -106,6 +106,21 @@ CHECKS["C11"] = dict(
          "sorted; tobytes from arbitrary states; plus all (quick: half of) real histories of 3 append/extend/insert ops vs a sparse-array reference.",
     design="4/C11", technique="inductive-step symbolic execution of Fragments.insert/tobytes with symbolic-key map proxy, CrossHair/z3")
 
+CHECKS["C17"] = dict(
+    text="Bounded symbolic model checking of the Auto/AutoLength state machine: ALL operation histories (construct with / without the "
+         "described or tracked keyword, then up to 3 (thorough 4) of: set tracked, set described, delete described, unpack, pack) for "
+         "AutoLength over Data, AutoLength over a sequence and Auto(lambda), generic and generated code; every assigned value symbolic "
+         "(explicit ints unbounded); after every step the attribute equals explicit ?? f(tracked), pack() serialises exactly that "
+         "(PacketError iff unrepresentable), instances have no __dict__.",
+    design="4/C17", technique="exhaustive history enumeration x symbolic values, symbolic execution of descriptor.Auto + sync hooks, CrossHair/z3")
+CHECKS["C18"] = dict(
+    text="Bounded symbolic model checking: flat declarations over Int, Bits, Data (constant / field / expression size, kept and non-kept "
+         "bytes markers incl. regex metacharacters, kept regex, EOS) x EVERY subset of fields left as Any x literal values stressing "
+         "escaping and fixed-high/low/mixed bit patterns; candidate string symbolic for every length: pattern == unpack(raw) implies the "
+         "derived regular expression matches raw (CrossHair's symbolic regex engine + z3); building never raises; filter() with and "
+         "without the pre-filter agree on symbolic corpora.",
+    design="4/C18", technique="symbolic execution of unpack + equality + regex matching over symbolic candidate bytes, CrossHair/z3")
+
 NA_REASON = "check not built yet in this round (planned: DESIGN.md section 4); no claim is made"
 
 
